@@ -126,6 +126,21 @@ def run_zoo(c):
     vals = _zoo['v']()          # fresh values per case (iterators / generators are one-shot)
     val = vals[c['vi']]
     r = {'name': name, 'val': type(val).__name__}
+    if c['obs'] == 'zoo_gen':
+        # a @pedantic GENERATOR function whose return annotation is the zoo annotation: created and advanced once
+        journal = []
+        src = ('from pedantic import pedantic\n@pedantic\ndef f(x: int) -> RET:\n    J.append(1)\n    yield RV\n')
+        try:
+            mod = make_module(src, dict(RET=ann, J=journal, RV=val))
+        except BaseException as ex:
+            r['out'], r['exc'] = 9, 'decoration failed: ' + repr(ex)[:100]
+            return r
+
+        def drive():
+            g = mod.f(x=1)
+            return next(g)
+        r['out'], r['exc'] = outcome_rep(drive)
+        return r
     if c['obs'] == 'zoo':
         r['out'], r['exc'] = outcome(lambda: assert_value_matches_type(value=val, type_=ann, err='', type_vars={}, context={}))
     else:
